@@ -234,6 +234,14 @@ func AnalyzeDistributed(
 		default:
 			nodeTemplate.Limit = math.MaxUint32
 		}
+	} else if nodeTemplate.GetAgg() != nil {
+		// Agg without Top: every data node must return the partial of EVERY
+		// group it holds. A finite per-node Limit truncates the node-local group
+		// set (in node-local insertion order) before the liaison reduces, so a
+		// group surviving the liaison's Limit would miss the contributions of the
+		// nodes that pruned it. Limit/offset apply after the liaison-side reduce
+		// (the row path does the same: pushedLimit = math.MaxInt under Agg).
+		nodeTemplate.Limit = math.MaxUint32
 	}
 	plan := &DistributedPlan{
 		queryTemplate:  queryTemplate,
